@@ -192,7 +192,7 @@ def main():
             "guard": "httparse_verif",
             "enable": "RUSTFLAGS=\"--cfg httparse_verif\" (the harness builds /repo as a path dependency with this flag)",
             "baseline_off_cmd": "cd /repo && cargo test --workspace --no-fail-fast --offline",
-            "source_commits": ["5085abe", "fc9af69", "81127dd"],
+            "source_commits": ["5085abe", "fc9af69", "81127dd", "72ba467"],
             "add_only": True,
         },
         "engines": [{"name": "coq-model", "path": "/verif/coq", "serves_properties": [p["id"] for p in props],
